@@ -22,7 +22,11 @@
 
 package net
 
-import "sync"
+import (
+	"sync"
+
+	"github.com/tochemey/goakt/v4/internal/verifhook"
+)
 
 const (
 	minBucketShift = 8  // 256 B
@@ -66,6 +70,7 @@ var headerPool = sync.Pool{
 // bucket that can satisfy the request. For sizes larger than the biggest
 // bucket a fresh slice is allocated (and will be collected by the GC).
 func (x *FramePool) Get(n int) []byte {
+	verifhook.At("wire.alloc", x, int64(n), 0)
 	idx := bucketIndex(n)
 	if idx >= numBuckets {
 		// Oversized frame — allocate directly.
